@@ -3,14 +3,15 @@ from props._generic import run_property, replay_with_driver
 from contracts import c03_context as C3
 from contracts import c09_fixobj as C9
 from contracts import c09_pfba as CP
+from contracts import c09_absexpr as CA
 from pyvc.contract import chain_hooks
 
 LEVEL = "other"
-KEYS = ["add_cons_vars_to_problem", "fix_objective_as_constraint", "add_pfba"]
+KEYS = ["add_cons_vars_to_problem", "fix_objective_as_constraint", "add_pfba", "add_absolute_expression"]
 
 
 def run(rep):
-    run_property(rep, KEYS, hooks=chain_hooks(CP.HOOKS, C3.ALL_HOOKS, C9.HOOKS), lemmas=CP.lemmas, explanation=(
+    run_property(rep, KEYS, hooks=chain_hooks(CP.HOOKS, CA.HOOKS, C3.ALL_HOOKS, C9.HOOKS), lemmas=lambda: CP.lemmas() + CA.lemmas(), explanation=(
         "Deductive part is thin and stated as such: the formulations are built from sympy/optlang expression arithmetic over all "
         "reactions (add_pfba, add_moma, add_room), which the verifier cannot interpret; within reach are the helper through which "
         "every one of them installs its variables and constraints, add_cons_vars_to_problem (proved: performs solver.add(what) and, "
@@ -21,7 +22,9 @@ def run(rep):
         "requested fraction and then to install an objective named _pfba_objective, direction min, with coefficient 1 on the forward "
         "AND the reverse variable of EVERY reaction and 0 elsewhere, ValueError if already applied; three lemmas (LRA): with f,r>=0 and "
         "f-r=v the sum f+r is at least |v|, |v| is attained, and at the minimum one of the pair is 0 - so the installed objective is the "
-        "total absolute flux. add_moma / add_room and optimality of the secondary problems "
+        "total absolute flux; add_absolute_expression (the building block of linear MOMA) is proved to create Variable(name, lb=0, ub) "
+        "and the rows expr - var <= difference, expr + var >= difference, with two lemmas: the variable is at least |expr - difference| "
+        "and that distance is admissible. The loops of add_moma / add_room over the reactions and optimality of the secondary problems "
         "is decided by the bounded driver: the documented problem rebuilt independently from (S, bounds, objective, reference) in "
         "exact rational arithmetic (ROOM binaries by enumeration) on generated models x objectives x fractions x references x "
         "knock-out states."),
